@@ -412,3 +412,192 @@ Proof.
     destruct (pc aw); try contradiction; lia.
   - destruct HI as (Ho' & _). congruence.
 Qed.
+
+(* ---- progress: a test_and_set that finds the flag clear acquires the lock *)
+Fixpoint arun (sched : list nat) (m : astate * hb) : astate * hb :=
+  match sched with
+  | [] => m
+  | t :: r => match amstep t m with Some m' => arun r m' | None => arun r m end
+  end.
+Lemma run_conc sched A h :
+  run rp KRSpin sched (conc A, h) = (conc (fst (arun sched (A, h))), snd (arun sched (A, h))).
+Proof.
+  revert A h; induction sched as [|t r IH]; intros A h; [reflexivity|].
+  cbn [run arun]. unfold rp. rewrite mstep_conc. destruct (amstep t (A, h)) as [[A' h']|]; apply IH.
+Qed.
+
+Lemma amstep_at A h t a : th A t = Some a ->
+  amstep t (A, h) =
+  match atstep t (ash A) a with
+  | Some (s', a', ev) => Some ({| ash := s'; athr := upd_nth (athr A) t a' |}, hb_step h t ev)
+  | None => None
+  end.
+Proof.
+  intros Ht. unfold amstep, astep; cbn [fst snd]. fold (th A t). rewrite Ht.
+  destruct (atstep t (ash A) a) as [[[s' a'] ev]|]; reflexivity.
+Qed.
+
+Lemma foc_tas_pc a : foc (conc_th a) = FEx (ETas Acquire) -> exists c, pc a = PT0 c.
+Proof. unfold conc_th; cbn [foc]. destruct (pc a); cbn; try discriminate. eauto. Qed.
+
+Theorem rspin_lock_acquires_when_free cl m t x :
+  reach rp KRSpin cl m -> sane m -> flag (shm m) = false ->
+  tat m t = Some x -> foc x = FEx (ETas Acquire) ->
+  exists m1, mstep rp KRSpin t m = Some m1 /\ flag (shm m1) = true /\
+    exists x4, tat (run rp KRSpin [t; t; t] m1) t = Some x4 /\
+               depth x4 = 1 /\ fresh x4 = true /\ rest x4 = List.tl (rest x) /\
+               (cur x = Some CTry -> out x4 = true :: out x).
+Proof.
+  intros Hr Hsane Ef Hx Hfoc. destruct (reach_abs _ _ Hr) as (A & HA & HR).
+  destruct m as [s h]; cbn [fst snd] in *; subst s.
+  destruct (tat_conc _ _ _ _ Hx) as (a & Ha & ->).
+  unfold sane, shm in *; cbn [fst conc sh] in *.
+  destruct (minv_reach _ _ _ HR Hsane) as [_ HI]. rewrite Ef in HI. destruct HI as (Ho & Hc & Hall).
+  destruct (Hall t a) as [_ Hd]; [discriminate|auto|].
+  destruct (foc_tas_pc a Hfoc) as (c & Ep).
+  unfold rp. rewrite mstep_conc, (amstep_at _ _ _ _ Ha). unfold atstep. rewrite Ep, Ef.
+  eexists. split; [reflexivity|]. split; [reflexivity|].
+  rewrite run_conc.
+  set (A1 := {| ash := set_flag (ash A) true; athr := upd_nth (athr A) t (goto a (PT2 c)) |}).
+  assert (H1 : th A1 t = Some (goto a (PT2 c))) by (eapply th_upd_same; eauto).
+  cbn [arun]. rewrite (amstep_at _ _ _ _ H1). unfold atstep. cbn [pc goto ash A1].
+  set (A2 := {| ash := set_owner (set_flag (ash A) true) (Some t);
+                athr := upd_nth (athr A1) t (goto (goto a (PT2 c)) (PT3 c)) |}).
+  assert (H2 : th A2 t = Some (goto (goto a (PT2 c)) (PT3 c))) by (eapply th_upd_same; eauto).
+  rewrite (amstep_at _ _ _ _ H2). unfold atstep. cbn [pc goto ash A2].
+  set (A3 := {| ash := set_owner (set_flag (ash A) true) (Some t);
+                athr := upd_nth (athr A2) t (goto (goto (goto a (PT2 c)) (PT3 c))
+                                               (PT4 c (count (set_owner (set_flag (ash A) true) (Some t))))) |}).
+  assert (H3 : th A3 t = Some (goto (goto (goto a (PT2 c)) (PT3 c))
+                                    (PT4 c (count (set_owner (set_flag (ash A) true) (Some t))))))
+    by (eapply th_upd_same; eauto).
+  rewrite (amstep_at _ _ _ _ H3). unfold atstep. cbn [pc goto ash A3 fst snd].
+  eexists. split.
+  { rewrite tat_th. erewrite th_upd_same by eauto. reflexivity. }
+  cbn [conc_th depth fresh rest out cur]. unfold fin. cbn [adepth aout arest goto]. rewrite Hd.
+  rewrite Ep. destruct c; cbn [op_of complete cur_of];
+    destruct (arest a) as [|[] r]; cbn; repeat split; auto; discriminate.
+Qed.
+
+(* ====================================================================== Spinlock *)
+
+Lemma stat_conc A h t x : tat (sconc A, h) t = Some x -> exists a, sth_at A t = Some a /\ x = sconc_th a.
+Proof.
+  unfold tat, sth_at, sconc; cbn [fst thr]. rewrite nth_error_map.
+  destruct (nth_error (sthr A) t) as [a|]; cbn; [|discriminate]. intros H; injection H as <-. eauto.
+Qed.
+
+Theorem spin_mutex cl m t u x y :
+  reach rp KSpin cl m -> tat m t = Some x -> tat m u = Some y -> 0 < depth x -> 0 < depth y -> t = u.
+Proof.
+  intros Hr Hx Hy Hdx Hdy. destruct (sreach_abs _ _ Hr) as (A & HA & HR).
+  destruct m as [s h]; cbn [fst snd] in *; subst s.
+  destruct (sinv_reach _ _ _ HR) as (_ & _ & _ & HI).
+  destruct (stat_conc _ _ _ _ Hx) as (a & Ha & ->). destruct (stat_conc _ _ _ _ Hy) as (b & Hb & ->).
+  cbn [sconc_th depth] in *. destruct (flag (ssh A)).
+  - destruct HI as (w & aw & cs & _ & _ & Hoth & _).
+    destruct (Nat.eq_dec t w) as [->|Ht]; destruct (Nat.eq_dec u w) as [->|Hu]; auto;
+      try (rewrite (Hoth _ _ Ht Ha) in Hdx; lia); rewrite (Hoth _ _ Hu Hb) in Hdy; lia.
+  - destruct HI as (Hall & _). rewrite (Hall _ _ Ha) in Hdx. lia.
+Qed.
+
+Theorem spin_cs_accesses_ordered cl m : reach rp KSpin cl m -> race (snd m) = false.
+Proof.
+  intros Hr. destruct (sreach_abs _ _ Hr) as (A & HA & HR).
+  destruct m as [s h]; cbn [fst snd] in *. apply (sinv_reach _ _ _ HR).
+Qed.
+
+(* the flag is set exactly while some thread holds the lock *)
+Theorem spin_flag_iff_held cl m :
+  reach rp KSpin cl m ->
+  (flag (shm m) = true <-> exists t x, tat m t = Some x /\ 0 < depth x) /\
+  (forall t x, tat m t = Some x -> depth x <= 1).
+Proof.
+  intros Hr. destruct (sreach_abs _ _ Hr) as (A & HA & HR).
+  destruct m as [s h]; cbn [fst snd] in *; subst s. unfold shm; cbn [fst sconc sh].
+  destruct (sinv_reach _ _ _ HR) as (_ & _ & _ & HI). destruct (flag (ssh A)).
+  - destruct HI as (w & aw & cs & Hw & Hd & Hoth & _). split.
+    + split; [intros _|auto]. exists w, (sconc_th aw). unfold tat, sconc; cbn [fst thr].
+      rewrite nth_error_map. fold (sth_at A w). rewrite Hw. cbn. split; [auto|lia].
+    + intros t x Hx. destruct (stat_conc _ _ _ _ Hx) as (a & Ha & ->). cbn [sconc_th depth].
+      destruct (Nat.eq_dec t w) as [->|Hne]; [rewrite Hw in Ha; injection Ha as <-; lia|].
+      rewrite (Hoth _ _ Hne Ha). lia.
+  - destruct HI as (Hall & _). split.
+    + split; [discriminate|]. intros (t & x & Hx & Hd).
+      destruct (stat_conc _ _ _ _ Hx) as (a & Ha & ->). cbn [sconc_th depth] in Hd.
+      rewrite (Hall _ _ Ha) in Hd. lia.
+    + intros t x Hx. destruct (stat_conc _ _ _ _ Hx) as (a & Ha & ->). cbn [sconc_th depth].
+      rewrite (Hall _ _ Ha). lia.
+Qed.
+
+Lemma sstep_at A t a : sth_at A t = Some a ->
+  sstep t A = match ststep t (ssh A) a with
+              | Some (s', a', ev) => Some ({| ssh := s'; sthr := upd_nth (sthr A) t a' |}, ev)
+              | None => None end.
+Proof. intros Ht. unfold sstep. fold (sth_at A t). rewrite Ht. reflexivity. Qed.
+
+Lemma stat_th A h u : tat (sconc A, h) u = option_map sconc_th (sth_at A u).
+Proof. unfold tat, sth_at, sconc; cbn [fst thr]. apply nth_error_map. Qed.
+
+(* try_lock()/lock() while another thread holds: the flag is already set, nothing changes,
+   try_lock returns false, lock keeps spinning *)
+Theorem spin_acquire_fails_no_effect cl m t x u y :
+  reach rp KSpin cl m -> tat m t = Some x -> tat m u = Some y -> u <> t -> 0 < depth y ->
+  (cur x = Some CTry \/ cur x = Some CLock) ->
+  exists m' x', mstep rp KSpin t m = Some m' /\ tat m' t = Some x' /\
+    shm m' = shm m /\ depth x' = depth x /\ depth x = 0 /\
+    (forall v, v <> t -> tat m' v = tat m v) /\
+    (cur x = Some CTry -> out x' = false :: out x) /\
+    (cur x = Some CLock -> cur x' = Some CLock /\ foc x' = foc x).
+Proof.
+  intros Hr Hx Hy Hne Hd Hc. destruct (sreach_abs _ _ Hr) as (A & HA & HR).
+  destruct m as [s h]; cbn [fst snd] in *; subst s.
+  destruct (sinv_reach _ _ _ HR) as (_ & _ & _ & HI).
+  destruct (stat_conc _ _ _ _ Hx) as (a & Ha & ->). destruct (stat_conc _ _ _ _ Hy) as (b & Hb & ->).
+  unfold shm; cbn [fst sconc sh sconc_th depth cur out foc] in *.
+  assert (Ef : flag (ssh A) = true /\ sdepth a = 0).
+  { destruct (flag (ssh A)).
+    - destruct HI as (w & aw & cs & Hw & Hdw & Hoth & _). split; [auto|].
+      destruct (Nat.eq_dec u w) as [->|Hu]; [apply (Hoth t a); auto|].
+      rewrite (Hoth u b Hu Hb) in Hd. lia.
+    - destruct HI as (Hall & _). rewrite (Hall _ _ Hb) in Hd. lia. }
+  destruct Ef as [Ef Hda].
+  assert (Hp : spc_of a = QT Direct \/ spc_of a = QT InLock).
+  { destruct (spc_of a) as [| |[]|]; cbn in Hc; destruct Hc as [Hc|Hc]; try discriminate Hc; auto. }
+  unfold rp. rewrite smstep_conc. unfold smstep; cbn [fst snd]. rewrite (sstep_at _ _ _ Ha).
+  unfold ststep. destruct Hp as [Ep|Ep]; rewrite Ep, Ef; cbn [negb].
+  - eexists. eexists. split; [reflexivity|]. split; [rewrite stat_th; erewrite sth_upd_same by eauto; reflexivity|].
+    cbn [fst sconc sh ssh sconc_th depth out cur]. split; [apply set_flag_same; auto|].
+    rewrite sfin_depth. cbn [complete fst]. split; [auto|]. split; [auto|]. split.
+    { intros v Hv. rewrite !stat_th. unfold sth_at; cbn [sthr]. rewrite nth_error_upd_other by auto. reflexivity. }
+    split; [|discriminate]. intros _. unfold sfin; cbn [complete]. destruct (srest a) as [|[] r]; reflexivity.
+  - eexists. eexists. split; [reflexivity|]. split; [rewrite stat_th; erewrite sth_upd_same by eauto; reflexivity|].
+    cbn [fst sconc sh ssh sconc_th depth out cur foc sgoto spc_of sdepth scur scfg]. split; [apply set_flag_same; auto|].
+    split; [auto|]. split; [auto|]. split.
+    { intros v Hv. rewrite !stat_th. unfold sth_at; cbn [sthr]. rewrite nth_error_upd_other by auto. reflexivity. }
+    split; [discriminate|]. intros _. auto.
+Qed.
+
+Theorem spin_lock_acquires_when_free cl m t x :
+  reach rp KSpin cl m -> flag (shm m) = false -> tat m t = Some x -> foc x = FEx (ETas Acquire) ->
+  exists m' x', mstep rp KSpin t m = Some m' /\ tat m' t = Some x' /\
+                flag (shm m') = true /\ depth x' = 1 /\ fresh x' = true /\
+                (cur x = Some CTry -> out x' = true :: out x).
+Proof.
+  intros Hr Ef Hx Hfoc. destruct (sreach_abs _ _ Hr) as (A & HA & HR).
+  destruct m as [s h]; cbn [fst snd] in *; subst s.
+  destruct (sinv_reach _ _ _ HR) as (_ & _ & _ & HI).
+  destruct (stat_conc _ _ _ _ Hx) as (a & Ha & ->).
+  unfold shm in *; cbn [fst sconc sh sconc_th depth cur out foc] in *.
+  rewrite Ef in HI. destruct HI as (Hall & _). pose proof (Hall _ _ Ha) as Hd.
+  assert (Hp : exists c, spc_of a = QT c) by (destruct (spc_of a); cbn in Hfoc; try discriminate; eauto).
+  destruct Hp as (c & Ep).
+  unfold rp. rewrite smstep_conc. unfold smstep; cbn [fst snd]. rewrite (sstep_at _ _ _ Ha).
+  unfold ststep. rewrite Ep, Ef.
+  destruct c; cbn [negb]; (eexists; eexists; split; [reflexivity|];
+    split; [rewrite stat_th; erewrite sth_upd_same by eauto; reflexivity|]);
+    cbn [fst sconc sh ssh sconc_th depth out cur fresh flag set_flag scur];
+    (split; [reflexivity|]); rewrite sfin_depth, Hd; cbn [complete fst];
+    (split; [reflexivity|]); unfold sfin; cbn [complete]; rewrite ?Hd;
+    destruct (srest a) as [|[] r]; cbn; split; auto; discriminate.
+Qed.
